@@ -86,31 +86,25 @@ def prog_text(prog: list) -> str:
 # taps (trace validation)
 # ---------------------------------------------------------------------------------------------------------
 class Tap:
-    """Record one event per call of the functions that are frames of Loader.tla, in the harness process."""
+    """Record one event per call of the (public) functions that are frames of Loader.tla, in the harness process.
+
+    Every tap is optional: a function that does not exist (renamed / restructured code) is listed in `missing`, the
+    trace comparison then ignores that kind of event - the verdict never depends on a tap."""
 
     def __init__(self, griffe):
         import _griffe.loader as L
         import _griffe.models as M
 
         self.events: list = []
+        self.missing: list = []
         self._saved = []
         ev = self.events
-        EXPANDED.clear()
-        _KEEP.clear()
-        orig_init = M.Alias.__init__
-
-        def alias_init(self_, name, target, **kw):
-            orig_init(self_, name, target, **kw)
-            # expand_wildcards is the only caller that passes an object target together with a line number
-            if not isinstance(target, str) and kw.get("lineno") is not None and kw.get("parent") is not None and not kw.get("inherited", False):
-                EXPANDED.add(id(self_))
-                _KEEP.append(self_)
-
-        M.Alias.__init__ = alias_init
-        self._saved.append((M.Alias, "__init__", orig_init))
 
         def wrap(cls, name, tag, key):
-            orig = getattr(cls, name)
+            orig = getattr(cls, name, None)
+            if orig is None or not callable(orig):
+                self.missing.append(tag)
+                return
 
             def wrapper(self_, *a, **kw):
                 try:
@@ -127,12 +121,14 @@ class Tap:
             o = a[0] if a else kw.get("obj", kw.get("module"))
             return o.path.split(".")
 
-        wrap(L.GriffeLoader, "load", "LD", lambda s, a, kw: [str(a[0])])
-        wrap(L.GriffeLoader, "resolve_aliases", "RA", lambda s, a, kw: [""])
-        wrap(L.GriffeLoader, "expand_exports", "EE", objpath)
-        wrap(L.GriffeLoader, "expand_wildcards", "EW", objpath)
-        wrap(L.GriffeLoader, "resolve_module_aliases", "RM", objpath)
-        wrap(M.Alias, "resolve_target", "RT", lambda s, a, kw: s.path.split("."))
+        loader_cls = getattr(L, "GriffeLoader", None) or griffe.GriffeLoader
+        alias_cls = getattr(M, "Alias", None) or griffe.Alias
+        wrap(loader_cls, "load", "LD", lambda s, a, kw: [str(a[0])])
+        wrap(loader_cls, "resolve_aliases", "RA", lambda s, a, kw: [""])
+        wrap(loader_cls, "expand_exports", "EE", objpath)
+        wrap(loader_cls, "expand_wildcards", "EW", objpath)
+        wrap(loader_cls, "resolve_module_aliases", "RM", objpath)
+        wrap(alias_cls, "resolve_target", "RT", lambda s, a, kw: s.path.split("."))
 
     def close(self):
         for cls, name, orig in reversed(self._saved):
@@ -140,11 +136,47 @@ class Tap:
         self._saved.clear()
 
 
+def same_trace(spec_events: list, real_events: list, missing: list) -> bool:
+    """Recorded call sequence = the spec's frame pushes, ignoring the kinds of event that could not be tapped."""
+    st = [[e[0], e[1] if e[1] else [""]] for e in spec_events if e[0] not in missing]
+    return st == [[e[0], e[1]] for e in real_events]
+
+
 # ---------------------------------------------------------------------------------------------------------
 # projection of the real tree onto Loader.tla's vocabulary
 # ---------------------------------------------------------------------------------------------------------
-EXPANDED: set = set()      # python ids of the aliases built by expand_wildcards (filled by Tap)
-_KEEP: list = []           # keeps those aliases alive so that python ids are not reused within a case
+_PROG: dict = {}        # module -> statements of the case being replayed (set by the drivers: set_program)
+
+
+def set_program(prog: list):
+    _PROG.clear()
+    _PROG.update({e["m"]: e["stmts"] for e in prog})
+
+
+def bound_target(alias):
+    """The object an alias is currently bound to, None when it is unresolved - public API only (`resolved`, and `target`,
+    which has no side effect on a resolved alias)."""
+    try:
+        return alias.target if alias.resolved else None
+    except Exception:  # noqa: BLE001
+        return None
+
+
+def is_expanded(alias) -> bool:
+    """Was this member alias built by expand_wildcards?  Its line is the line of a `from m import *` statement of its module
+    (the visitor's own alias on that line is the pseudo member "m/*")."""
+    par = alias.parent
+    if par is None or par.is_alias:
+        return False
+    stmts = _PROG.get(par.path, [])
+    ln = alias.alias_lineno or 0
+    return 1 <= ln <= len(stmts) and stmts[ln - 1]["op"] == "star" and not alias.name.endswith("/*")
+
+
+def passed_flag(alias):
+    """Alias._passed_through when the implementation has such an attribute, else None (the clause is then skipped)."""
+    v = getattr(alias, "_passed_through", None)
+    return v if isinstance(v, bool) else None
 
 
 def oid(obj) -> dict:
@@ -152,12 +184,12 @@ def oid(obj) -> dict:
     if obj is None:
         return dict(NIL)
     if obj.is_alias:
-        par = obj._parent
+        par = obj.parent
         if par is None:
             return {"m": "?", "n": obj.name, "l": obj.alias_lineno or 0}
         if par.is_alias:
             return {"m": "~", "n": obj.name, "l": 0}
-        return {"m": par.path, "n": obj.name, "l": (obj.alias_lineno or 0) + (100 if id(obj) in EXPANDED else 0)}
+        return {"m": par.path, "n": obj.name, "l": (obj.alias_lineno or 0) + (100 if is_expanded(obj) else 0)}
     if obj.kind.value == "module":
         return {"m": obj.path, "n": "", "l": 0}
     par = obj.parent
@@ -168,7 +200,7 @@ def chain_final(obj, limit: int = 12):
     """Final target along already-bound links only (no side effect), None when unbound / looping (spec: FinalOf)."""
     seen = 0
     while obj is not None and obj.is_alias:
-        obj = obj._target
+        obj = bound_target(obj)
         seen += 1
         if seen > limit:
             return None
@@ -198,7 +230,7 @@ def project(griffe, collection, present: list) -> list:
             if mem.is_alias:
                 k = "alias"
                 tp = mem.target_path.split(".")
-                tgt = oid(mem._target)
+                tgt = oid(bound_target(mem))
             else:
                 k = {"module": "mod", "function": "def", "attribute": "attr" if n == "__all__" else "def"}.get(mem.kind.value, mem.kind.value)
                 tp = []
